@@ -47,7 +47,10 @@ class FloatPrecision:
 class Float3(FloatPrecision):
     @property
     def mantissa3(self) -> float:
-        return self.mantissa * 10**(self.exponent-self.exponent3)
+        shift = self.exponent-self.exponent3
+        if shift < 0: # dividing by an exact power of ten is correctly rounded, multiplying by the inexact 10**-11 is not (2e11*10**-11 = 1.9999999999999998)
+            return self.mantissa / 10**(-shift)
+        return self.mantissa * 10**shift
 
     @property
     def exponent3(self) -> int:
